@@ -163,6 +163,27 @@ func bScenario(log *bufio.Writer, lmu *sync.Mutex, seed int64, scn int) {
 		closeAt = 60 + rnd.Intn(80)
 		pSkip = 0
 	}
+	// a heartbeat: the largest gap between two 20 ms ticks tells whether the whole process stood still during the scenario
+	// (a frozen sandbox makes every timer fire late: not the client's doing)
+	var maxGap int64
+	hbStop := make(chan struct{})
+	go func() {
+		last := time.Now()
+		t := time.NewTicker(20 * time.Millisecond)
+		defer t.Stop()
+		for {
+			select {
+			case <-hbStop:
+				return
+			case now := <-t.C:
+				if g := int64(now.Sub(last) / time.Millisecond); g > atomic.LoadInt64(&maxGap) {
+					atomic.StoreInt64(&maxGap, g)
+				}
+				last = now
+			}
+		}
+	}()
+	defer close(hbStop)
 	lmu.Lock()
 	b, _ := json.Marshal(bM{"ev": "reset", "scn": scn, "seed": seed, "pdrop": pDrop, "pskip": pSkip, "maxdelay_ms": maxDelay, "close_at_ms": closeAt})
 	log.Write(b)
@@ -279,7 +300,26 @@ func bScenario(log *bufio.Writer, lmu *sync.Mutex, seed int64, scn int) {
 					ev["outcome"] = "never"
 					if os.Getenv("VERIF_DUMP") != "" {
 						buf := make([]byte, 1<<22)
-						os.WriteFile(os.Getenv("VERIF_DUMP"), buf[:runtime.Stack(buf, true)], 0o644)
+						txt := string(buf[:runtime.Stack(buf, true)])
+						rpc.RLock()
+						for a, pool := range rpc.connPools {
+							bc := pool.batchConn
+							txt += fmt.Sprintf("\nPOOL %s queue=%d builder=%d\n", a, len(bc.batchCommandsCh), bc.reqBuilder.len())
+							for i, c := range bc.batchCommandsClients {
+								txt += fmt.Sprintf(" client %d sent=%d epoch=%d closed=%d lock=%d\n", i, c.sent.Load(), atomic.LoadUint64(&c.epoch), atomic.LoadInt32(&c.closed), 0)
+								c.batched.Range(func(k, v interface{}) bool {
+									e := v.(*batchCommandsEntry)
+									key := ""
+									if g := e.req.GetGet(); g != nil {
+										key = string(g.Key)
+									}
+									txt += fmt.Sprintf("   pending id=%v key=%s fwd=%q canceled=%d async=%v age=%v\n", k, key, e.forwardedHost, atomic.LoadInt32(&e.canceled), e.async(), time.Since(e.reqArriveAt))
+									return true
+								})
+							}
+						}
+						rpc.RUnlock()
+						os.WriteFile(os.Getenv("VERIF_DUMP"), []byte(txt), 0o644)
 					}
 				}
 				switch {
@@ -340,7 +380,7 @@ func bScenario(log *bufio.Writer, lmu *sync.Mutex, seed int64, scn int) {
 		rpc.Close()
 	}
 	lmu.Lock()
-	e, _ := json.Marshal(bM{"ev": "end", "drops": atomic.LoadInt64(&drops), "skips": atomic.LoadInt64(&skips)})
+	e, _ := json.Marshal(bM{"ev": "end", "drops": atomic.LoadInt64(&drops), "skips": atomic.LoadInt64(&skips), "max_gap_ms": atomic.LoadInt64(&maxGap)})
 	log.Write(e)
 	log.WriteByte('\n')
 	lmu.Unlock()
